@@ -293,6 +293,27 @@ fn run_pipeline(sink: &mut Sink, rng: &mut Rng, args: &Args, ndicts: usize, ntex
             }
             rows.push(f.join(","));
         }
+        // homographs: copies of indexed rows with other connection ids and costs (same right id in half of them, so that
+        // candidates which differ only in the left id or only in the cost compete at the same span)
+        let indexed: Vec<usize> = rows.iter().enumerate().filter(|(_, r)| r.split(',').nth(1) != Some("-1")).map(|(i, _)| i).collect();
+        for _ in 0..4 + rng.below(6) {
+            let src = rows[*rng.pick(&indexed[..])].clone();
+            let mut f: Vec<String> = src.split(',').map(|s| s.to_string()).collect();
+            f[1] = format!("{}", rng.below(usize::min(nl, nr) as u64));
+            if rng.chance(1, 2) {
+                f[2] = format!("{}", rng.below(usize::min(nl, nr) as u64));
+            }
+            f[3] = format!("{}", rng.range(-2000, 12000));
+            for k in [13usize, 14, 15, 16, 17] {
+                if k < f.len() {
+                    f[k] = "*".into();
+                }
+            }
+            if f.len() > 14 {
+                f[14] = "A".into();
+            }
+            rows.push(f.join(","));
+        }
         let lex_csv = rows.join("\n");
         // in half of the dictionaries: a user dictionary on top (its words are candidates like any other;
         // the lexicon is asked for the parameters of every dictionary node below)
